@@ -244,19 +244,35 @@ def r18b(ctx: Context) -> None:
     # parameter up in the scheme's mapping
     param = owner.params[0] if owner.params else None
     applier = prog.method("pymarkdown.return_code_helper.SchemeDefinition", "apply_scheme")
+    def applied(func: FuncInfo, expr: ast.AST, name: Optional[str], depth: int = 0) -> bool:
+        """``expr`` (in ``func``) is <scheme>.apply_scheme(<name>), directly, through a local or through a helper
+        of the same class that is handed ``name``"""
+        if name is None or depth > 4:
+            return False
+        if isinstance(expr, ast.Name):
+            values = [n.value for n in walk_local(func.node) if isinstance(n, (ast.Assign, ast.AnnAssign)) and n.value is not None and any(isinstance(t, ast.Name) and t.id == expr.id for t in (n.targets if isinstance(n, ast.Assign) else [n.target]))]
+            return bool(values) and all(applied(func, v, name, depth + 1) for v in values)
+        if not isinstance(expr, ast.Call):
+            return False
+        site = site_for(prog, func, expr)
+        if site is None:
+            return False
+        handed = [i for i, a in enumerate(expr.args) if isinstance(a, ast.Name) and a.id == name]
+        handed_kw = [k.arg for k in expr.keywords if isinstance(k.value, ast.Name) and k.value.id == name]
+        if applier in site.targets:
+            return bool(handed or handed_kw)
+        if len(site.targets) == 1 and site.targets[0].cls == owner.cls and (handed or handed_kw):
+            helper = site.targets[0]
+            offset = 1 if helper.params and helper.params[0] in ("self", "cls") else 0
+            inner = handed_kw[0] if handed_kw else helper.params[handed[0] + offset] if handed[0] + offset < len(helper.params) else None
+            rets = returns_of(helper)
+            return bool(rets) and all(applied(helper, r, inner, depth + 1) for r in rets)
+        return False
+
     for func, node in owner_sites:
         if not (isinstance(node, ast.Call) and node.args):
             continue
-        good = False
-        arg = node.args[0]
-        candidates = [arg]
-        if isinstance(arg, ast.Name):
-            candidates = [n.value for n in walk_local(owner.node) if isinstance(n, ast.Assign) and any(isinstance(t, ast.Name) and t.id == arg.id for t in n.targets)]
-        for value in candidates:
-            if isinstance(value, ast.Call):
-                site = site_for(prog, owner, value)
-                if site and applier in site.targets and any(isinstance(a, ast.Name) and a.id == param for a in value.args):
-                    good = True
+        good = applied(owner, node.args[0], param)
         if good:
             rule.ok(func_key(owner) + ": mapping", "exit value = scheme.apply_scheme(application_result)")
         else:
@@ -278,7 +294,7 @@ def r18b(ctx: Context) -> None:
         rule.fail(func_key(applier), where(applier), "apply_scheme does not return the mapping's entry for its argument (a default or a different key breaks the documented table)")
     # the scheme object comes from the registry entry of the chosen name, with the default name as fallback
     registry_attrs = {name for name, value in prog.cls(RCH).class_attrs.items() if isinstance(value, ast.Dict) and value.values and all(isinstance(v, ast.Call) for v in value.values)}
-    lookers = [owner] + [t for site in prog.sites_in(owner) for t in site.targets if t.cls == owner.cls]
+    lookers = [prog.functions[q] for q in prog.reachable([owner]) if prog.functions[q].cls == owner.cls]
     picks = [n for f in lookers for n in walk_local(f.node) if isinstance(n, ast.Subscript) and isinstance(n.value, ast.Attribute) and n.value.attr in registry_attrs]
     if picks:
         rule.ok(func_key(owner) + ": scheme lookup", f"registry[{norm(picks[0].slice)}]")
